@@ -215,7 +215,8 @@ fn check_faults(t: &mut Tally, text: &str) {
         t.transitions += 1;
         let case = || json!({"text": text, "buffer": cap, "hard_error_at_read_call": j});
         // every kind of hard error (only EINTR may be retried); the reader keeps delivering data afterwards
-        for kind in [std::io::ErrorKind::UnexpectedEof, std::io::ErrorKind::InvalidData, std::io::ErrorKind::WouldBlock, std::io::ErrorKind::TimedOut, std::io::ErrorKind::BrokenPipe] {
+        use std::io::ErrorKind as K;
+        for kind in [K::UnexpectedEof, K::InvalidData, K::WouldBlock, K::TimedOut, K::BrokenPipe, K::ConnectionReset, K::ConnectionAborted, K::ConnectionRefused, K::NotConnected, K::NotFound, K::PermissionDenied, K::AddrInUse, K::AddrNotAvailable, K::AlreadyExists, K::InvalidInput, K::WriteZero, K::Unsupported, K::OutOfMemory, K::Other] {
             t.evals += 1;
             t.validated += 1;
             match guard(|| read_faulty_kind(text.as_bytes(), Some(j), None, cap, kind).0) {
@@ -335,6 +336,7 @@ fn main() {
             "MAINTAINER=", "PKG_SKIP_REASON=  ", "CATEGORIES=", "PKG_LOCATION=", "PBULK_WEIGHT=",
             "PKGNAMEX=zz-9", "PKGNAME_OLD=b-2", "pkgname=z-1", "maintainer=zz", "XMAINTAINER=q", "MAINTAINERS=q", "Maintainer=q", "ALL_DEPENDSX=bad", "all_depends=bad", "PKG_LOCATIONS=nope",
             "PKGNAME=", "=PKGNAME=a-1", "PKGNAME", "PKGNAME=d-4=5",
+            "SCAN_DEPENDS=a//b ./c d/ e/./f ../g //h", "SCAN_DEPENDS=.", "MULTI_VERSION=A=1 A=1 a=1",
             "DEPENDS=x-1 y-2", "DEPENDS=", "BUILD_DEPENDS=x-1", "DEPEND=x-1", "SCAN_DEPENDS_X=f", "MULTI_VERSIONS=A=1", "PKGPATH=c/p", "PKG_LOCATION_OLD=c/p", "COMMENT=c", "HOMEPAGE=h",
         ]);
         let n2 = run.pick(3, 4);
